@@ -18,7 +18,7 @@ EXPLANATION = (
     "func_count reads the logger's counter. R3 containers: history __setitem__/record and result __setitem__ deep-copy, reject unknown "
     "keys, __getattr__ maps to items. R4 result sources: each result field reads its designated state location; target_type/problem_type "
     "mapping. R5: any store to the incumbent point after the record block takes a recorded iterate from the history under the noisy-mode "
-    "guard, so the returned x is a recorded iterate. Decides record structure, not the numeric values recorded."
+    "guard, so the returned x is a recorded iterate. R6 must-definition dataflow over set_attributes (exceptional edges included): a field stored anywhere is stored on every path. Decides record structure, not the numeric values recorded."
 )
 
 VALUE_ATTRS = ("yval", "fval", "fsd")
